@@ -12,10 +12,18 @@ fn since_epoch() -> std::time::Duration {
 }
 
 pub fn now_millis() -> u64 {
+    #[cfg(rnacos_verif)]
+    if let Some(t) = crate::verif_hooks::clock::get() {
+        return t as u64;
+    }
     since_epoch().as_millis() as u64
 }
 
 pub fn now_millis_i64() -> i64 {
+    #[cfg(rnacos_verif)]
+    if let Some(t) = crate::verif_hooks::clock::get() {
+        return t;
+    }
     since_epoch().as_millis() as i64
 }
 
